@@ -26,8 +26,9 @@ import traceback
 from pathlib import Path
 
 VERIF = Path(__file__).resolve().parent.parent
-EVIDENCE_DIR = VERIF / "evidence"
-REPLAY_DIR = VERIF / "replays"
+# redirected only by the seeded-change tooling (tools/try_seed.sh), never by registered commands
+EVIDENCE_DIR = Path(os.environ.get("VERIF_EVIDENCE_DIR") or VERIF / "evidence")
+REPLAY_DIR = Path(os.environ.get("VERIF_REPLAY_DIR") or VERIF / "replays")
 KNOWN_FINDINGS = VERIF / "known_findings.json"
 NPROC = int(os.environ.get("VERIF_JOBS", "0")) or min(16, os.cpu_count() or 1)
 
@@ -214,7 +215,7 @@ if __name__ == "__main__":
 
 
 def write_replay(prop_id, v):
-    REPLAY_DIR.mkdir(exist_ok=True)
+    REPLAY_DIR.mkdir(parents=True, exist_ok=True)
     blob = json.dumps(v["case"], sort_keys=True, ensure_ascii=True, default=repr)
     name = f"{prop_id}-{h64(blob):016x}"
     path = REPLAY_DIR / f"{name}.json"
@@ -267,7 +268,7 @@ def _jsonable(x):
 
 
 def write_evidence(driver, tier, seed, st: Stats, wall, n_viol, n_known, extra_cov=None):
-    EVIDENCE_DIR.mkdir(exist_ok=True)
+    EVIDENCE_DIR.mkdir(parents=True, exist_ok=True)
     parts = {}
     for k, d in st.parts.items():
         parts[k] = {
@@ -319,13 +320,13 @@ def write_evidence(driver, tier, seed, st: Stats, wall, n_viol, n_known, extra_c
 def _repo_head():
     try:
         head = subprocess.run(
-            ["git", "-C", "/repo", "rev-parse", "--short", "HEAD"],
+            ["git", "-C", os.environ.get("VERIF_REPO") or "/repo", "rev-parse", "--short", "HEAD"],
             capture_output=True,
             text=True,
             timeout=20,
         ).stdout.strip()
         dirty = subprocess.run(
-            ["git", "-C", "/repo", "status", "--porcelain", "--untracked-files=no"],
+            ["git", "-C", os.environ.get("VERIF_REPO") or "/repo", "status", "--porcelain", "--untracked-files=no"],
             capture_output=True,
             text=True,
             timeout=20,
